@@ -607,9 +607,10 @@ func runC06() {
 		n = 46000
 	}
 	n = scaled(n)
-	expireEvery := 20
+	expireEvery, bigEvery := 20, 60
 	if run.Thorough() {
 		expireEvery = 60 // the family sleeps: thinned out in the thorough tier
+		bigEvery = 240   // ~300 KB of trace per scenario
 	}
 	for i := 0; i < n; i++ {
 		t0 := time.Now()
@@ -628,7 +629,7 @@ func runC06() {
 			c06AggRetry(rnd.Fork())
 			rec.Count("c06:family:agg-retry")
 		case i%6 == 5:
-			c06Batches(i%60 == 5, rnd.Fork())
+			c06Batches(i%bigEvery == 5, rnd.Fork())
 			rec.Count("c06:family:batches")
 		default:
 			c06Scenario(rnd.Fork())
